@@ -74,6 +74,10 @@ def ctx_variants(params: List[Dict[str, Any]], flavour_async: bool) -> Iterator[
     yield {'params': params, 'flavour': vw, 'ctx': 'none'}
     yield {'params': params, 'flavour': vw, 'ctx': 'view', 'self_name': 'this'}
     yield {'params': params, 'flavour': vw, 'ctx': 'none', 'static': True}
+    if params:
+        # parameters annotated with a string naming a type that is not importable at run time (the base validator never looks at annotations)
+        yield {'params': params, 'flavour': fn, 'ctx': 'none', 'annotations': 'unresolvable'}
+        yield {'params': params, 'flavour': vw, 'ctx': 'view', 'annotations': 'unresolvable'}
     # the view gets the context through its constructor (registered as context='context'); a METHOD parameter that happens to be
     # called 'context' too is an ordinary client parameter
     vnamed = [p for p in params if p['kind'] in ('PK', 'KO')]
@@ -183,7 +187,7 @@ class C04(Check):
         "at each valid positional position and as keyword-only; first positional with positional=True; class based view with and without "
         "constructor context) x dispatcher (sync: functions and views; async: coroutines and async views), crossed with params absent, all "
         "positional lists of length 0..5 and all named mappings over every subset of (parameter names + 'zz' + the context name); (b) "
-        "Hypothesis: signatures of up to 4 parameters with JSON-scalar defaults and pooled JSON values as arguments; views whose instance parameter is named 'this'; public static methods of views; view methods with an ordinary parameter named like the view's registered context name; a client parameter whose name is contained in the context parameter's name; client parameters named like the library's own internals (signature, method, params, request, cls, kwargs ...); "
+        "Hypothesis: signatures of up to 4 parameters with JSON-scalar defaults and pooled JSON values as arguments; views whose instance parameter is named 'this'; public static methods of views; parameters with string annotations that cannot be resolved at run time; view methods with an ordinary parameter named like the view's registered context name; a client parameter whose name is contained in the context parameter's name; client parameters named like the library's own internals (signature, method, params, request, cls, kwargs ...); "
         "(c) histories of 6..14 short-lived dispatchers each serving a freshly created function that is dropped afterwards (every step judged like a single case). Oracle: a twin function "
         "with the same signature minus the context is called with the same list/mapping: TypeError => -32602 and empty execution log; "
         "otherwise success whose result is the scripted return value and one log entry whose arguments equal the twin's locals(); the "
